@@ -24,7 +24,7 @@ import dask.local
 import numpy as np
 from dask.threaded import pack_exception
 
-POLICIES = ("uniform", "dfs", "bfs", "reverse", "window", "straggler")
+POLICIES = ("uniform", "dfs", "bfs", "reverse", "window", "straggler", "prefer")
 
 
 class InjectedFault(MemoryError):
@@ -215,6 +215,17 @@ class SimScheduler:
                         frame.n_straggle += 1
             fast = [i for i, x in enumerate(pool) if not x.straggle]
             cand = fast or list(range(n))
+            return cand[self.rng.randrange(len(cand))]
+        if p == "prefer":
+            # targeted follow-up after monitor M1: run the tasks that were seen mutating an
+            # argument as early as possible ("first") or starve them ("last"); uniform otherwise
+            keys = self.policy_arg["keys"]
+            hot = [i for i, x in enumerate(pool) if x.kstr in keys]
+            if self.policy_arg.get("mode") == "first":
+                cand = hot or list(range(n))
+            else:
+                cold = [i for i in range(n) if pool[i].kstr not in keys]
+                cand = cold or list(range(n))
             return cand[self.rng.randrange(len(cand))]
         raise ValueError("unknown policy %r" % (p,))
 
